@@ -76,7 +76,7 @@ CONTRACTS = {
     "exitInclude": {"qual": "BlackbirdListener.exitInclude", "params": ["self", "ctx"], "reads": ["_VAR", "_PARAMS", "self._includes", "self._cwd"],
                     "modifies": ["self._includes", "_VAR", "_PARAMS"], "raises": "any", "spec": "spec_exitInclude", "props": ["C07", "C10", "C12"],
                     "families": ["include_inline", "syntax_errors"]},
-    "parse": {"params": ["data", "listener", "cwd"], "defaults": {"cwd": None}, "reads": ["_VAR", "_PARAMS"], "modifies": ["_VAR", "_PARAMS"],
+    "parse": {"params": ["data", "listener", "cwd"], "defaults": {"cwd": None, "listener": "class:BlackbirdListener"}, "reads": ["_VAR", "_PARAMS"], "modifies": ["_VAR", "_PARAMS"],
               "raises": "any", "spec": "spec_parse", "props": ["C02", "C10", "C12", "C07"], "families": ["syntax_errors", "history"]},
 }
 
